@@ -30,7 +30,7 @@ MAX_FREE = 9
 
 # ----------------------------------------------------------------------------- oracle (own evaluator)
 def is_ret(n):
-    return n[0:4] == "_ret"
+    return n == "_ret" or n.startswith("_ret.")
 
 
 def defs_json(exps):
